@@ -173,6 +173,12 @@ def monitors_1d(rep, rng, kernel, p, h, x, y, xq, est, a, b, replay_d):
     polq = sum(c * ((xq - a) / (b - a)) ** j for j, c in enumerate(coef))
     if np.max(np.abs(pred(pol) - polq)[ok]) > 1e-6 * max(1.0, float(np.max(np.abs(pol)))):
         bad.append(f"does not reproduce a polynomial of degree {p}")
+    c2 = 2.0 ** -30
+    # C06_design_invariant / C06_weights_invariant with a = 2^-30 (exact): abscissae, query points and bandwidth in other units
+    if np.max(np.abs(pred(y, x * c2, xq * c2, h * c2) - est)[ok]) > 1e-7 * sc:
+        bad.append("design, query points and bandwidth expressed in other units (times 2^-30) change the estimates")
+    if np.max(np.abs(pred(y * c2) - c2 * est)[ok]) > 1e-7 * c2 * sc:
+        bad.append("the estimates for the responses times 2^-30 are not 2^-30 times the estimates")
     if kernel != "gaussian":
         far = np.all(np.abs(x[:, None] - xq[None, :]) >= h, axis=1)
         if far.any():
